@@ -1524,14 +1524,15 @@ pub enum Role {
     UC,
     CS,
     CV,
+    IT,
 }
 
 pub fn matrix_scenarios(fl: Flavour, n: u64, max_roles: usize) -> Vec<Scn> {
     use Role::*;
     let roles: Vec<Role> = if fl == Flavour::B {
-        vec![P1, P2, C1, C2, C3, V, DS, DR, DL, DL2, D0, UL, AS, AS2, CL, CL2, UC, CS, CV]
+        vec![P1, P2, C1, C2, C3, V, DS, DR, DL, DL2, D0, UL, AS, AS2, CL, CL2, UC, CS, CV, IT]
     } else {
-        vec![P1, P2, C1, C2, DS, DR, D0, CL, CL2, UC, CS]
+        vec![P1, P2, C1, C2, DS, DR, D0, CL, CL2, UC, CS, IT]
     };
     let ops_of = |r: Role, base: u32| -> Vec<Op> {
         match r {
@@ -1554,6 +1555,8 @@ pub fn matrix_scenarios(fl: Flavour, n: u64, max_roles: usize) -> Vec<Scn> {
             UC => vec![op(Unsub, 21)],
             CS => vec![opd(CloneH, 9, 10), opv(TrySend, 10, base + 1), op(DropH, 10)],
             CV => vec![op(IntoSingle, 17), op(IntoMulti, 17)],
+            // the borrowing iterator on a handle of the main stream
+            IT => vec![op(TryIterE, 23)],
         }
     };
     // what each role needs in the prefix: (op creating its handle)
@@ -1576,6 +1579,7 @@ pub fn matrix_scenarios(fl: Flavour, n: u64, max_roles: usize) -> Vec<Scn> {
             DL2 => vec![opd(AddStream, 1, 8), opd(CloneH, 8, 18)],
             D0 => vec![],
             CV => vec![opd(AddStream, 1, 17)],
+            IT => vec![opd(CloneH, 1, 23)],
         }
     };
     let mut combos: Vec<Vec<Role>> = Vec::new();
@@ -1604,7 +1608,7 @@ pub fn matrix_scenarios(fl: Flavour, n: u64, max_roles: usize) -> Vec<Scn> {
             continue; // the second handle of that stream only matters with the first
         }
         // at least one role must move values, or two must change the stream set
-        let traffic = combo.iter().any(|r| matches!(r, P1 | P2 | C1 | C2 | C3 | V | CS | AS | D0));
+        let traffic = combo.iter().any(|r| matches!(r, P1 | P2 | C1 | C2 | C3 | V | CS | AS | D0 | IT));
         let structural_pair = combo.len() == 2 || combo.iter().filter(|r| matches!(r, CL | CL2 | UC | DR | DL | DL2 | UL | AS | AS2 | CV)).count() >= 2;
         if !traffic && !structural_pair {
             continue;
@@ -1824,7 +1828,12 @@ pub fn tasks(prop: &str, tier: Tier) -> Vec<Task> {
             push_all(&mut t, c05_scenarios(ns), thorough);
             push_all(&mut t, c04_scenarios(ns_q), thorough);
         }
-        "C07" => push_all(&mut t, c07_scenarios(ns, thorough), thorough),
+        "C07" => {
+            push_all(&mut t, c07_scenarios(ns, thorough), thorough);
+            // the sender count is also changed by clones and drops that race
+            // with each other: the disconnect oracle runs on the role matrix
+            push_matrix(&mut t, thorough);
+        }
         "C08" => {
             let wq = [
                 WaitK::Busy,
@@ -1927,8 +1936,15 @@ pub fn tasks(prop: &str, tier: Tier) -> Vec<Task> {
             push_matrix(&mut t, thorough);
         }
         "C17" => {
-            // memory after teardown of concurrent executions with handle churn
+            // memory after teardown of concurrent executions with handle churn;
+            // where retirements race at the threshold the manager must still
+            // reclaim afterwards (growth probe)
             push_all(&mut t, c16_scenarios(&[1]), thorough);
+            for x in t.iter_mut() {
+                if x.scn.name.starts_with("c16-two-retirers-at-threshold") || x.scn.name.starts_with("c16-leaver-vs-full-cycle") {
+                    x.scn.growth_probe = true;
+                }
+            }
             push_matrix(&mut t, thorough);
             push_all(&mut t, c12_scenarios(if thorough { ns_q } else { &[1] }), thorough);
             if thorough {
